@@ -1809,6 +1809,9 @@ impl<'a, E: quiver_core::effects::Effect> Compiler<'a, E> {
             return Ok(self.program.register_type(Type::nil()));
         }
 
+        // Pins (`&x`) refer to the variables in scope before this pattern binds anything.
+        let pins = pattern::resolve_pins(&self.scopes, &binding_sets)?;
+
         // Register locals for all bindings (indices needed for Load)
         for (variable_name, variable_type) in &bindings {
             let local_index = self.local_count;
@@ -1848,7 +1851,7 @@ impl<'a, E: quiver_core::effects::Effect> Compiler<'a, E> {
         pattern::generate_pattern_code(
             &mut self.codegen,
             self.program,
-            &self.scopes,
+            &pins,
             &binding_sets,
             fail_target,
         )?;
